@@ -141,8 +141,17 @@ class Check:
         for p, kv in st.items():
             plan.setdefault("stat", {}).setdefault(p, {}).update(kv)
         roots = [{"top": t, "mode": rng.choice(["bfs", "dfs"])} for t in tops]
+        tz = rng.choice(["UTC", "Europe/Berlin", "Asia/Kolkata", "America/New_York"])
+        if rng.random() < 0.5:
+            # modification times inside the skipped and the repeated local hour of the zone's DST switches
+            import zoneinfo
+            from .c13 import dst_transitions
+            trs = dst_transitions(zoneinfo.ZoneInfo(tz), rng.choice([2021, 2023]))
+            for n in world["nodes"]:
+                if trs and rng.random() < 0.5:
+                    n["mtime"] = (rng.choice(trs) + rng.choice([-3600, -1800, -1, 0, 1, 900, 1800, 3599, 3600, 5400])) * 10 ** 9
         return {"world": world, "roots": roots, "keys": keys, "selected": selected, "positional": positional, "where": where, "plan": plan,
-                "order_class": cls, "tz": rng.choice(["UTC", "Europe/Berlin", "Asia/Kolkata"])}
+                "order_class": cls, "tz": tz}
 
     def sample_view(self, case):
         c = dict(case)
